@@ -59,7 +59,7 @@ def generate(rng, tier, index):
     c = rng.derive("cfg")
     if rng.derive("compact").chance(0.05):
         cfg = simgen.gen_compact_config(c)
-        cfg["alloc"] = c.choice([1, 2, 2])
+        cfg["alloc"] = c.choice([1, 2, 3])
         o = rng.derive("ops")
         ops = [dict(op="steps", n=o.randint(100, 400)), dict(op="save", via=o.choice(TRANSPORTS)), dict(op="steps", n=o.randint(150, 350)), dict(op="save", via=o.choice(TRANSPORTS)),
                dict(op="steps", n=o.randint(150, 350))]
@@ -69,7 +69,7 @@ def generate(rng, tier, index):
     else:
         integ = simgen.INTEGRATORS_ALL[index % 11] if index < 33 else c.choice(simgen.INTEGRATORS_ALL)
         cfg = simgen.gen_planetary_config(c, integrators=[integ], nmin=2, nmax=7 if tier == "quick" else 12)
-    cfg["alloc"] = c.choice([1, 2, 2])
+    cfg["alloc"] = c.choice([1, 2, 3])
     o = rng.derive("ops")
     nops = o.randint(3, 10 if tier == "quick" else 14)
     ops = []
